@@ -211,11 +211,47 @@ class Ctx:
         `alt`: list of alternative atom lists; each path may satisfy any one of them."""
         disj = self.pc_strs(body, blk)
         wants = [list(atoms)] + [list(a) for a in (alt or [])]
-        ok = bool(disj) and all(any(all(self._sat(d, a) for a in w) for w in wants) for d in disj)
+        ok = bool(disj) and all(self._implies_some(d, wants) for d in disj)
         self.ob(rule, body.key, event, ok,
                 "requires %s; found %s" % (" | ".join(" & ".join(str(x) for x in w) for w in wants),
                                             " | ".join(" & ".join(sorted(d)) or "true" for d in disj) or "unreachable"))
         return ok
+
+    def _implies_some(self, d, wants):
+        """disjunct d (a conjunction of atoms) implies w1 ∨ w2 ∨ …: directly, or by case analysis
+        on the boolean atoms the alternatives mention and d is silent about (a path condition
+        simplified to `¬a ∧ ¬c` implies `(¬a ∧ ¬b) ∨ (¬a ∧ b ∧ ¬c)`)"""
+        if any(all(self._sat(d, a) for a in w) for w in wants):
+            return True
+        if len(wants) < 2:
+            return False
+        bases = []
+        for w in wants:
+            for a in w:
+                if isinstance(a, str) and (a.endswith("=True") or a.endswith("=False") or a.endswith("=True$") or a.endswith("=False$")):
+                    base = re.sub(r"=(True|False)\$?$", "", a)
+                    if base not in bases and not self._sat(d, base + "=True") and not self._sat(d, base + "=False"):
+                        bases.append(base)
+        if not bases or len(bases) > 4:
+            return False
+
+        def sat(a, assign):
+            if self._sat(d, a):
+                return True
+            if isinstance(a, str):
+                m = re.search(r"=(True|False)\$?$", a)
+                if m:
+                    base = a[:m.start()]
+                    if base in assign:
+                        return assign[base] == (m.group(1) == "True")
+            return False
+
+        import itertools
+        for vals in itertools.product([True, False], repeat=len(bases)):
+            assign = dict(zip(bases, vals))
+            if not any(all(sat(a, assign) for a in w) for w in wants):
+                return False
+        return True
 
     def forbids(self, rule, body, blk, event, atoms):
         """No path to `blk` satisfies all of `atoms` together (regexes)."""
